@@ -192,11 +192,28 @@ pub fn build(spec: &ImageSpec) -> Result<(Vec<u8>, Truth), String> {
     let l1_clusters = std::cmp::max((l1_size * 8).div_ceil(cs), 1);
 
     // compressed run layout (relative byte offsets inside the run)
+    // A host cluster gets one reference per compressed cluster overlapping it, so narrow
+    // refcounts limit how many blobs may share one host cluster.
+    let rc_cap = rc_max(order);
     let mut rel = Vec::new();
     let mut pos = 0u64;
+    let mut per_cluster: std::collections::BTreeMap<u64, u64> = std::collections::BTreeMap::new();
     for (_, z) in &blobs {
         if spec.comp_sector_align {
             pos = pos.div_ceil(512) * 512;
+        }
+        loop {
+            let nb = (pos + z.len() as u64 - 1) / 512 - pos / 512;
+            let len = (nb + 1) * 512 - (pos & 511);
+            let first = pos >> cb;
+            let last = (pos + len - 1) >> cb;
+            if (first..=last).all(|c| per_cluster.get(&c).copied().unwrap_or(0) < rc_cap) {
+                for c in first..=last {
+                    *per_cluster.entry(c).or_insert(0) += 1;
+                }
+                break;
+            }
+            pos = ((pos >> cb) + 1) << cb;
         }
         rel.push(pos);
         pos += z.len() as u64;
